@@ -1,7 +1,7 @@
 """C13 Only the sender's key can authorize a transaction (spec/data/TxAuth.tla)."""
 import json
 
-FULL = {"VForms": '{"ok", "flip", "hi", "comp", "bad"}', "RForms": '{"ok", "flip"}', "SForms": '{"ok", "flip", "neg"}',
+FULL = {"TxKinds": '{"v3", "v2"}', "VForms": '{"ok", "flip", "hi", "comp", "bad"}', "RForms": '{"ok", "flip"}', "SForms": '{"ok", "flip", "neg"}',
         "Lens": "{65, 64, 63, 66, 0}", "FromForms": '{"addr", "lastbyte", "firstbyte", "contract"}',
         "HashLens": "{32, 31, 1, 0, 33}"}
 
@@ -12,18 +12,13 @@ def run(ctx):
     else:
         # 1. exhaustive: the full case table (signer x signed id x claimed sender x from form x signature treatment,
         #    recover / verify / serialization round trips) with the three invariants
-        r = ctx.model_check("data", "MC_TxAuth", "MC_TxAuth.cfg", constants=dict(FULL, MaxOps=1, MaxTreat=ctx.pick(2, 4)), coverage=True,
+        r = ctx.model_check("data", "MC_TxAuth", "MC_TxAuth.cfg", constants=dict(FULL, MaxOps=1, MaxTreat=4), coverage=True,
                             timeout=ctx.pick(900, 1800))
         ctx.check_coverage(r, ["Submit", "RecoverOp", "VerifyOp", "RoundTrip"])
         ctx.exhaustive = True
         # 2. every case of the table, with its predicted verdict
-        #    (quick: rows with at most 2 simultaneous treatments of the signature)
         cases = ctx.behaviours("data", "Gen_TxAuth", "Gen_TxAuth.cfg",
-                               constants=dict(FULL, MaxOps=1, Depth=1, MaxTreat=ctx.pick(2, 4)), timeout=1800)
-        if not ctx.quick():
-            # pairs of calls on the same keys (later verdicts must not depend on earlier calls)
-            cases += ctx.behaviours("data", "Gen_TxAuth", "Gen_TxAuth.cfg", constants=dict(FULL, MaxOps=2, Depth=2, MaxTreat=4),
-                                    simulate="num=%d" % 3000, depth=3, seed=ctx.seed, timeout=1800)
+                               constants=dict(FULL, MaxOps=1, Depth=1, MaxTreat=4), timeout=1800)
     inp = ctx.path("in", "cases.ndjson")
     with open(inp, "w") as fh:
         for b in cases:
